@@ -265,6 +265,30 @@ NestedDriversCorrect ==
     /\ (CaseSet = "all" /\ c.d = "second_partial_derivative" => NestedSecondPartial(1) /\ NestedSecondPartial(2))
 
 ---------------------------------------------------------------------------
+(* the public seeding helpers of the scalar types: from_re(x).derivative() / derivative1() / ... set ONE first-order part *)
+(* to one and leave every other part as from_re left it.  The drivers above seed through exactly these parts.            *)
+SeedHelpers ==
+    << [ty |-> "Dual", helper |-> "derivative", field |-> "eps"], [ty |-> "Dual2", helper |-> "derivative", field |-> "v1"],
+       [ty |-> "Dual3", helper |-> "derivative", field |-> "v1"],
+       [ty |-> "HyperDual", helper |-> "derivative1", field |-> "eps1"], [ty |-> "HyperDual", helper |-> "derivative2", field |-> "eps2"],
+       [ty |-> "HHD", helper |-> "derivative1", field |-> "eps1"], [ty |-> "HHD", helper |-> "derivative2", field |-> "eps2"],
+       [ty |-> "HHD", helper |-> "derivative3", field |-> "eps3"] >>
+TyOf(name) == CASE name = "Dual" -> B!TDual [] name = "Dual2" -> B!TDual2 [] name = "Dual3" -> B!TDual3
+                [] name = "HyperDual" -> B!THyperDual [] name = "HHD" -> B!THHD
+Seeded(name, field) == [B!FromRe(TyOf(name), XVal(1)) EXCEPT ![field] = P1]
+SeedHelpersOK ==
+    /\ \A i \in 1..Len(SeedHelpers) : SeedHelpers[i].field \in B!FieldSet(TyOf(SeedHelpers[i].ty))
+    \* the seedings the drivers use are those of the helpers
+    /\ Seeded("Dual", "eps") = [re |-> XVal(1), eps |-> P1]
+    /\ Seeded("Dual2", "v1") = [re |-> XVal(1), v1 |-> P1, v2 |-> P0]
+    /\ Seeded("Dual3", "v1") = [re |-> XVal(1), v1 |-> P1, v2 |-> P0, v3 |-> P0]
+    /\ Seeded("HyperDual", "eps1") = HD(XVal(1), P1, P0)
+    /\ [Seeded("HyperDual", "eps2") EXCEPT !.re = XVal(2)] = HD(XVal(2), P0, P1)
+    /\ \A f \in {"eps1", "eps2", "eps3"} : Seeded("HHD", f) = [HHDRe(XVal(1)) EXCEPT ![f] = P1]
+SeedHelpersInv == (CaseSet = "all" /\ c.d = "first_derivative") => SeedHelpersOK
+ExportSeeds == (Mode = "num" /\ c.d = "first_derivative") => PrintT(<<"SEEDS", ToJson(SeedHelpers)>>)
+
+---------------------------------------------------------------------------
 (* export ("num" mode): the closure (terms with integer coefficients), the point, the expected output *)
 NV(cc) == CASE cc.d \in {"first_derivative", "second_derivative", "third_derivative"} -> 1
             [] cc.d = "second_partial_derivative" -> 2
